@@ -299,6 +299,8 @@ class SimWorld:
 
 
 def _jsonable(v: Any) -> Any:
+    if isinstance(v, dict) and not all(isinstance(k, str) for k in v):
+        return {f"{type(k).__name__}:{k!r}": _jsonable(x) for k, x in v.items()}      # keys of mixed types are not sortable
     try:
         json.dumps(v)
         return v
